@@ -5,6 +5,8 @@ import re
 import z3
 from .values import *
 
+_INTS = r'(usize|isize|u8|i8|u16|i16|u32|i32|u64|i64|char|bool)'
+
 
 _REG = []
 
@@ -89,6 +91,15 @@ def merged_call_value(eng, st, fv, args, dest_ty=None):
 
 
 # ---------------------------------------------------------------- core::cmp / integers
+
+@intrinsic(r'^<(usize|u32|u64|isize|i32|i64|u8|u16|i16|i8) as (std::cmp::)?Ord>::(min|max)$', 'Ord::{min,max} on integers (method form)')
+def _ord_min_max(eng, st, args, ci):
+    a, b = args
+    is_min = ci.func.endswith('::min')
+    lt = (a.e < b.e) if a.signed else z3.ULT(a.e, b.e)
+    # Ord::min returns self when equal-or-less, Ord::max returns other when equal: irrelevant for integers
+    return BV(z3.If(lt, a.e, b.e) if is_min else z3.If(lt, b.e, a.e), a.ty)
+
 
 @intrinsic(r'^(std|core)::cmp::(min|max)::<(usize|u32|u64|isize|i32|i64|u8)>$', 'core::cmp::{min,max} on integers')
 def _minmax(eng, st, args, ci):
@@ -288,6 +299,32 @@ def _mem_take(eng, st, args, ci):
     raise Unsupported('mem::take of %r' % (va,))
 
 
+@intrinsic(r'^<' + _INTS + r' as (std::default::)?Default>::default$', 'Default::default for integers = 0', prio=2)
+def _int_default(eng, st, args, ci):
+    m = re.match(r'^<(\w+) as', ci.func)
+    return bv_const(0, m.group(1))
+
+
+@intrinsic(r'^<bool as (std::default::)?Default>::default$', 'bool::default() = false', prio=2)
+def _bool_default(eng, st, args, ci):
+    return z3.BoolVal(False)
+
+
+@intrinsic(r'^<(std::string::)?String as (std::default::)?Default>::default$', 'String::default() = empty', prio=2)
+def _string_default(eng, st, args, ci):
+    return Seq([])
+
+
+@intrinsic(r'^<(std::vec::)?Vec<.*> as (std::default::)?Default>::default$', 'Vec::default() = empty', prio=2)
+def _vec_default(eng, st, args, ci):
+    return Seq([])
+
+
+@intrinsic(r'^<(std::option::)?Option<.*> as (std::default::)?Default>::default$', 'Option::default() = None', prio=2)
+def _option_default(eng, st, args, ci):
+    return NONE
+
+
 @intrinsic(r'^<.* as (std::clone::)?Clone>::clone$', 'Clone::clone (value copy of plain data)')
 def _clone(eng, st, args, ci):
     v = eng.read_ref(st, args[0])
@@ -302,6 +339,18 @@ def _into_from(eng, st, args, ci):
     a, b = m.group(1), m.group(3)
     if a.strip() == b.strip():
         return args[0]
+    src_t, dst_t = ((a, b) if m.group(2) == 'Into' else (b, a))
+    src_t, dst_t = src_t.strip(), dst_t.strip()
+    if src_t == 'bool' and dst_t in INT_TYPES:
+        w_, _sg = INT_TYPES[dst_t]
+        v0 = args[0]
+        return BV(z3.If(v0, z3.BitVecVal(1, w_), z3.BitVecVal(0, w_)), dst_t)
+    if src_t in INT_TYPES and dst_t in INT_TYPES and isinstance(args[0], BV):
+        ws, ss = INT_TYPES[src_t]
+        wd, _sd = INT_TYPES[dst_t]
+        if wd >= ws:                      # From between integers exists only for lossless widenings
+            e0 = args[0].e
+            return BV(e0 if wd == ws else (z3.SignExt(wd - ws, e0) if ss else z3.ZeroExt(wd - ws, e0)), dst_t)
     name = eng.resolve_call(ci.func, len(args))
     if name is not None:
         return eng._inline(st, eng.get_fn(name), args)
@@ -522,7 +571,6 @@ def _hm_values_mut_next(eng, st, args, ci):
 
 # ---------------------------------------------------------------- integer / bool trait methods (args are references)
 
-_INTS = r'(usize|isize|u8|i8|u16|i16|u32|i32|u64|i64|char|bool)'
 
 
 def _deref_arg(eng, st, a):
@@ -631,6 +679,24 @@ def _opt_map(eng, st, args, ci):
     return _fork_on_option(eng, st, v, on_some, lambda s: [(s, 'ret', NONE)])
 
 
+@intrinsic(r'^((std|core)::option::)?Option::<.*>::or_else::<', 'Option::or_else (closure body = real MIR)')
+def _opt_or_else(eng, st, args, ci):
+    v, f = args
+    return _fork_on_option(eng, st, v, lambda s, x: [(s, 'ret', v)], lambda s: eng.call_value(s, f, [], ci.dest_ty))
+
+
+@intrinsic(r'^(std|core)::ops::RangeInclusive::<' + _INTS + r'>::contains::<', 'RangeInclusive<int>::contains')
+def _range_incl_contains(eng, st, args, ci):
+    r = _deref_arg(eng, st, args[0])
+    x = _as_bv(_deref_arg(eng, st, args[1]))
+    if not (isinstance(r, Tup) and len(r.items) >= 2 and isinstance(r.items[0], BV)):
+        raise Unsupported('RangeInclusive value %r' % (r,))
+    lo_, hi_ = r.items[0], r.items[1]
+    if x.signed:
+        return z3.And(lo_.e <= x.e, x.e <= hi_.e)
+    return z3.And(z3.ULE(lo_.e, x.e), z3.ULE(x.e, hi_.e))
+
+
 @intrinsic(r'^((std|core)::option::)?Option::<.*>::flatten$', 'Option::flatten')
 def _opt_flatten(eng, st, args, ci):
     v = args[0]
@@ -688,6 +754,12 @@ def _res_and_then(eng, st, args, ci):
 def _res_and(eng, st, args, ci):
     a, b = args
     return _fork_on_result(eng, st, a, lambda s, x: [(s, 'ret', b)], lambda s, e: [(s, 'ret', Enum('Result', 1, {1: Tup([e])}))])
+
+
+@intrinsic(r'^((std|core)::result::)?Result::<.*>::unwrap_or$', 'Result::unwrap_or')
+def _res_unwrap_or(eng, st, args, ci):
+    v, d = args
+    return _fork_on_result(eng, st, v, lambda s, x: [(s, 'ret', x)], lambda s, e: [(s, 'ret', d)])
 
 
 @intrinsic(r'^((std|core)::result::)?Result::<.*>::ok$', 'Result::ok')
@@ -1209,6 +1281,60 @@ def _vd_push_back(eng, st, args, ci):
     v = eng.read_ref(st, args[0])
     eng.write_ref(st, args[0], Seq(v.items + (args[1],)))
     return UNIT
+
+
+@intrinsic(r'^(std|core)::iter::repeat::<', 'iter::repeat(x) = the endless iterator of x (only usable under take)')
+def _iter_repeat(eng, st, args, ci):
+    return Tup([args[0]], 'Repeat')
+
+
+@intrinsic(r'^<(std::iter::)?Repeat<.*> as (std::iter::)?Iterator>::take$', 'Repeat::take(n)', prio=3)
+def _repeat_take(eng, st, args, ci):
+    return Tup([args[0].items[0], args[1]], 'RepeatTake')
+
+
+@intrinsic(r'^<(std::string::)?String as (std::iter::)?Extend<char>>::extend::<', 'String::extend with repeat(c).take(n): forks on the feasible values of n up to the loop bound')
+def _string_extend(eng, st, args, ci):
+    sref, it = args
+    if not (isinstance(it, Tup) and it.name == 'RepeatTake'):
+        raise Unsupported('String::extend with %r' % (it,))
+    ch, n = it.items
+    cur = eng.read_ref(st, sref)
+    if not isinstance(cur, Seq):
+        raise Unsupported('String::extend on %r' % (cur,))
+    c = n.concrete()
+    if c is not None:
+        eng.write_ref(st, sref, Seq(list(cur.items) + [ch] * c))
+        return UNIT
+    res = []
+    rest = st
+    bound = max(eng.loop_bound, 1)
+    for k in range(0, bound + 1):
+        cond = n.e == k
+        if eng.feasible(rest, cond):
+            sk = rest.fork()
+            sk.assume(cond)
+            eng.write_ref(sk, sref, Seq(list(cur.items) + [ch] * k))
+            res.append((sk, 'ret', UNIT))
+            rest.assume(z3.Not(cond))
+    if eng.feasible(rest):
+        res.append((rest, 'unwind', 'String::extend(repeat.take(n)) with n above the loop bound'))
+    return res
+
+
+@intrinsic(r'^core::slice::<impl \[.*\]>::(last|last_mut|first|first_mut)$|^(std::vec::)?Vec::<.*>::(last|last_mut|first|first_mut)$', 'slice::{first,last}(_mut) on a sequence of concrete length')
+def _slice_last(eng, st, args, ci):
+    r = args[0]
+    if not isinstance(r, Ref):
+        raise Unsupported('slice::last on a non-reference')
+    seq = eng.read_ref(st, r)
+    if not isinstance(seq, Seq):
+        raise Unsupported('slice::last on %r' % (seq,))
+    if not seq.items:
+        return NONE
+    meth = ci.func.rsplit('::', 1)[1]
+    j = len(seq.items) - 1 if meth.startswith('last') else 0
+    return some(Ref(r.key, r.projs + (('cindex', j),), meth.endswith('_mut')))
 
 
 @intrinsic(r'^(std::vec::)?Vec::<.*>::dedup_by::<', 'Vec::dedup_by (std semantics: same_bucket(&mut next, &mut last_kept), next is dropped when it returns true; closure = real MIR)')
